@@ -37,6 +37,7 @@ SEEDS = [
     ("!!set {a, b}", "[0]"), ("!!set {a, b}", "[a:b]"), ("{a: 1}", "a.b.c"), ("[1, 2]", "[parent(5)]"),
     ("{a: [1, 2]}", "a[distinct()]"), ("{a: [[1], [1]]}", "a[unique()]"), ("[null, null]", "[max()]"),
     ("{a: null}", "a[.^x]"), ("[]", "[.=1]"), ("{}", "**"), ("{}", "*"), ("[[]]", "**.a"),
+    ('[[{b: 1, 0: [{id: "5"}, null]}], {}]', "/[-2:4][-6:5][0][distinct(id)]"),
 ]
 
 
@@ -98,7 +99,11 @@ def operand_selects_scalars(data, segs):
         res = list(Processor(LOG, data).get_nodes(txt, mustexist=True))
     except Exception:
         return False
-    return all(not isinstance(r.node, (dict, list, set, yp.CommentedSet)) for r in res)
+    from vf.checks.C01 import flatten
+    flat = []
+    for r in res:
+        flatten(r, flat)
+    return all(not isinstance(n, (dict, list, set, yp.CommentedSet)) for n in flat)
 
 
 def hostile_seg(rng, vocab):
